@@ -452,8 +452,8 @@ impl QErr {
     }
     pub fn short(&self) -> String {
         let s = format!("{:?}", self);
-        if s.len() > 200 {
-            let mut cut = 200;
+        if s.len() > 900 {
+            let mut cut = 900;
             while !s.is_char_boundary(cut) {
                 cut -= 1;
             }
